@@ -1020,6 +1020,8 @@ func callBuiltin(caller *frame, callpos token.Pos, fn *ssa.Builtin, args []value
 			return x.len()
 		case symStr:
 			return symStrLen(x)
+		case ropeBytes:
+			return ropeLen(x.s)
 		case chan value:
 			return len(x)
 		default:
@@ -1153,6 +1155,12 @@ func widen(x value) value {
 // the result.
 // Possible cases are described with the ssa.Convert operator.
 func convS(fr *frame, t_dst, t_src types.Type, x value) value {
+	if rb, ok := x.(ropeBytes); ok {
+		if b, ok := t_dst.Underlying().(*types.Basic); ok && b.Info()&types.IsString != 0 {
+			return rb.s
+		}
+		return x // []byte-like to []byte-like
+	}
 	if isSym(x) {
 		return symConv(fr, t_dst, t_src, x)
 	}
